@@ -10,9 +10,15 @@ Nothing of pytestarch is imported or run.  The functions reachable from an entry
                 transfer functions; an unmodelled call yields a value tagged `("?", name)` so that a rule which misses a flow
                 through it reports *undecided* instead of a violation.
 
-Local variables are flow-sensitive (strong updates, branches joined, loops iterated to a fixpoint); the heap is flow-insensitive.
-When every operand of a pure string/int operation is a known constant the operation is folded (this is how the tag slicing is
-decided on a table of file contents); `finditer`/`findall` are never folded - their matches stay abstract.
+Local variables are flow-sensitive (strong updates, branches joined, `is None` / truthiness / isinstance narrowing, loops iterated
+to a fixpoint, loops over sequences of known length unrolled); the heap is flow-insensitive and the whole run is repeated until it
+is stable.  When every operand of a pure string/int operation is a known constant the operation is folded (this is how pattern
+texts are reconstructed and how the tag slicing is decided on a table of file contents); `finditer`/`findall` are never folded -
+their matches stay abstract.  Exceptions: explicit `raise`, folded operations that fail ("op") and abstract operations that may
+fail ("may") are collected and routed to enclosing `try` statements; a path that always raises is dead.
+
+Values read out of a mapping with computed keys carry `("v", atom)` marks (they went through a lookup such as the alias map), values
+built from `d[k]` / `d.get(k)` remember that (`src`, for merging stores), loop variables over sets / dict keys carry a `uniq` token.
 
 Besides values the interpreter records *events*: pattern uses (`sites`), dict stores with the facts known at the store
 (`events`, for the accumulate-never-overwrite rule), explicit raises.
@@ -472,7 +478,7 @@ class Interp:
 
     def op_failed(self, exc: BaseException) -> None:
         """A folded (all operands constant) operation raised: the path ends."""
-        self.raise_("builtins." + type(exc).__name__.replace("error", "error"), "op")
+        self.raise_("builtins." + type(exc).__name__, "op")
         raise _Dead()
 
     def exc_matches(self, raised: str, handler_names: list[str]) -> bool:
@@ -1574,8 +1580,6 @@ class Interp:
                         for y in b.values():
                             if isinstance(y, (tuple, list)):
                                 self.grow_elem(s, consts(y))
-                if isinstance(op, ast.Mult):
-                    pass
                 outs.append(ref(s))
         if not outs:
             return self.unknown_value(f"operator {type(op).__name__}", a, b)
@@ -2444,8 +2448,6 @@ class Interp:
             return args[1] if len(args) > 1 else BOT
         if name in ("pathlib.Path", "pathlib.PurePath", "os.fspath", "os.path.abspath", "os.fsdecode"):
             return a0 if any(isinstance(x, Opaque) for x in a0.refs) else self.unknown_value(name, *args)
-        if name.startswith("builtins.") is False and name.split(".")[0] in ("set", "frozenset", "dict", "list", "str"):
-            pass
         return self.unknown_value(f"call of {name}", *args, *kwargs.values())
 
     def seq_method(self, seqs: list[Seq], meth: str, args: list[AV], kwargs: dict, fr: Frame, e: ast.AST, star: list) -> AV:
